@@ -188,10 +188,14 @@ def get_component_files(suffix: Optional[str] = None) -> List[ComponentFileEntry
     # import path for the app.
     # See https://github.com/django-components/django-components/issues/669
     for conf in apps.get_app_configs():
+        # NOTE: The same directory may be listed more than once (e.g. `"components"` and `"components/"`).
+        # Search each directory only once, same as `get_component_dirs()` does for `COMPONENTS.dirs`.
+        searched_app_dirs: Set[Path] = set()
         for app_dir in app_settings.APP_DIRS:
             comps_path = Path(conf.path).joinpath(app_dir)
-            if not comps_path.exists():
+            if not comps_path.exists() or comps_path.resolve() in searched_app_dirs:
                 continue
+            searched_app_dirs.add(comps_path.resolve())
             app_component_filepaths = _search_dirs([comps_path], search_glob)
             for filepath in app_component_filepaths:
                 app_component_module = _filepath_to_python_module(filepath, conf.path, conf.name)
